@@ -19,18 +19,28 @@ what it needs, a recv without it returns what has arrived).  The client module's
 replaced by a shim that serves FakeSockets and hands real sockets to the real select.  A client
 that would block for ever on that transport raises simnet.Stall instead of hanging.
 
-The only private attributes of the client that are touched are `_sock` and `_connected`.
+Transports "connect" and "context" let the client reach the peer by its own public path:
+`Client.connect()` / `pyrtma.client_context()` to a loopback listener owned by the harness; a helper
+thread answers the handshake (one ACK after CONNECT_V2 + CONNECT) and, for a write with cut points,
+plays the later pieces with short real pauses while the client is blocked in its read.  Every piece
+is guaranteed to arrive (the pauses only make the segmentation effective, no verdict depends on them).
+
+The only private attributes of the client that are touched are `_sock` and `_connected` (for
+"connect"/"context" only `_connected = False` at teardown of "connect").
 """
 from __future__ import annotations
 
 import ctypes
+import fcntl
 import hashlib
 import logging
 import select
 import signal
 import socket
 import struct
+import termios
 import threading
+import time
 from typing import Dict, List, Optional, Tuple
 
 import pyrtma
@@ -223,13 +233,19 @@ def _install_select_shim():
 _TCP = {"listener": None}
 
 
-def _tcp_pair():
+def _listener():
     lst = _TCP["listener"]
     if lst is None:
         lst = socket.socket(socket.AF_INET, socket.SOCK_STREAM)
         lst.bind(("127.0.0.1", 0))
         lst.listen(16)
+        lst.settimeout(10)
         _TCP["listener"] = lst
+    return lst
+
+
+def _tcp_pair():
+    lst = _listener()
     a = socket.socket(socket.AF_INET, socket.SOCK_STREAM)
     a.connect(lst.getsockname())
     b, _ = lst.accept()
@@ -238,17 +254,37 @@ def _tcp_pair():
     return a, b
 
 
+class ConnectFailed(Exception):
+    """The client's own connect path did not get through the scripted handshake."""
+
+
+def _fionread(sock) -> int:
+    buf = bytearray(4)
+    fcntl.ioctl(sock.fileno(), termios.FIONREAD, buf)
+    return struct.unpack("i", buf)[0]
+
+
 class Link:
     """One client <-> scripted peer connection."""
 
     BUF = 1 << 20
     HANG_S = 5.0
+    PAUSE = 0.02  # real pause before each later piece of a segmented write (connect/context)
 
-    def __init__(self, timecode: bool = False, transport: str = "unix"):
+    def __init__(self, timecode: bool = False, transport: str = "unix", msg_list=None):
         _install_watchdog()
         self.transport = transport
         self.timecode = bool(timecode)
         self.hs = proto.HDR.size + (8 if timecode else 0)
+        self.net_path = transport in ("connect", "context")
+        self._writer = None
+        self._writer_err = None
+        self._go = threading.Event()
+        self._hurry = False
+        self._ctx = None
+        if self.net_path:
+            self._connect_public(msg_list)
+            return
         if transport == "unix":
             a, b = socket.socketpair()
         elif transport == "tcp":
@@ -284,6 +320,107 @@ class Link:
         client._connected = True
         self.client = client
 
+    # -- the client's own connect path -------------------------------------------------------
+    def _connect_public(self, msg_list):
+        lst = _listener()
+        out = {}
+
+        def handshake():
+            try:
+                b, _ = lst.accept()
+                b.settimeout(10)
+                buf, got = bytearray(), []
+                while len(got) < 2:  # CONNECT_V2 then CONNECT
+                    d = b.recv(4096)
+                    if not d:
+                        break
+                    buf += d
+                    got += proto.parse_stream(buf, self.timecode)
+                b.sendall(proto.build(MT_ACK, b"", src_mod=0, dest_mod=101, timecode=self.timecode))
+                out["sock"], out["frames"] = b, got
+            except Exception as e:  # noqa
+                out["err"] = e
+
+        th = threading.Thread(target=handshake, daemon=True)
+        th.start()
+        server = "%s:%d" % lst.getsockname()
+        try:
+            if self.transport == "context":
+                self._ctx = pyrtma.client_context(server_name=server, timecode=self.timecode,
+                                                  msg_list=list(msg_list) if msg_list else None)
+                client = self._ctx.__enter__()
+            else:
+                client = Client(timecode=self.timecode)
+                client.logger.enable_console = False
+                client.connect(server)
+        except Exception as e:  # noqa
+            th.join(12)
+            if "sock" in out:
+                out["sock"].close()
+            raise ConnectFailed(f"{type(e).__name__}: {e}")
+        th.join(12)
+        if "sock" not in out:
+            raise ConnectFailed(f"handshake thread: {out.get('err')}")
+        client.logger.enable_console = False
+        b = out["sock"]
+        b.settimeout(None)
+        b.setsockopt(socket.IPPROTO_TCP, socket.TCP_NODELAY, 1)
+        b.setblocking(False)
+        self.handshake_frames = out["frames"]
+        self.sim = False
+        self.written, self.cut_abs = 0, []
+        self.a, self.peer = client.sock, b
+        self.peer_state = "open"
+        self.ctrl_buf = bytearray()
+        self.hang = False
+        self.client = client
+
+    def _send_now(self, data: bytes, settle=True):
+        """Blocking-safe send on the peer socket; optionally wait until the bytes are readable at the client."""
+        before = _fionread(self.a) if settle else 0
+        view = memoryview(data)
+        while len(view):
+            try:
+                n = self.peer.send(view)
+            except BlockingIOError:
+                raise HarnessError("socket buffer full: the script queues more than the kernel buffers hold")
+            view = view[n:]
+        if settle:
+            for _ in range(25000):
+                if _fionread(self.a) >= before + len(data):
+                    return
+                time.sleep(0.0002)
+            raise ConnectFailed("written bytes did not arrive within 5 s")
+
+    def _play(self, pieces):
+        self._go.wait(2.0)  # normally released when the client enters its next call
+        for p in pieces:
+            if not self._hurry:
+                time.sleep(self.PAUSE)
+            try:
+                self.peer.sendall(p)
+            except OSError as e:
+                self._writer_err = e
+                return
+
+    def _join_writer(self):
+        w = self._writer
+        if w is not None:
+            self._hurry = True
+            self._go.set()
+            w.join()
+            self._writer = None
+
+    def _settle_eof(self):
+        """TCP: wait until the client's end has seen the FIN."""
+        p = select.poll()
+        p.register(self.a, select.POLLIN | select.POLLRDHUP)
+        for _ in range(500):
+            ev = p.poll(10)
+            if ev and ev[0][1] & (select.POLLRDHUP | select.POLLHUP | select.POLLERR):
+                return
+        raise ConnectFailed("FIN did not arrive within 5 s")
+
     # -- peer side -------------------------------------------------------------------------
     def _arrive(self):
         """sim: let the bytes up to the next cut point (or everything) arrive."""
@@ -307,8 +444,21 @@ class Link:
             if not paused:
                 self._arrive()
             return
+        self._join_writer()
+        if self.net_path:
+            pieces, last = [], 0
+            for c in list(cuts) + [len(data)]:
+                pieces.append(data[last:c])
+                last = c
+            self._send_now(pieces[0])
+            if len(pieces) > 1:
+                self._go.clear()
+                self._hurry = False
+                self._writer = threading.Thread(target=self._play, args=(pieces[1:],), daemon=True)
+                self._writer.start()
+            return
         if cuts:
-            raise HarnessError("segmented arrival needs the sim transport")
+            raise HarnessError("segmented arrival needs the sim, connect or context transport")
         view = memoryview(data)
         while len(view):
             try:
@@ -339,18 +489,24 @@ class Link:
 
     def shut(self):
         """Half close: the client sees EOF after the queued bytes, and can still send."""
+        self._join_writer()
         if self.peer_state == "open":
             if self.sim:
                 self.a.rx_fin = True  # FIN behind whatever is queued or still on the way
             else:
                 self.peer.shutdown(socket.SHUT_WR)
+                if self.net_path:
+                    self._settle_eof()
             self.peer_state = "shut"
 
     def fin(self):
         """Orderly close with nothing unread."""
+        self._join_writer()
         self.read_ctrl()
         self.peer.close()
         self.peer_state = "closed"
+        if self.net_path:
+            self._settle_eof()
 
     def rst(self):
         """Abortive close.  unix: close with unread client data pending; tcp: SO_LINGER(1, 0)."""
@@ -359,7 +515,8 @@ class Link:
             self.peer.abort()
             self.peer_state = "closed"
             return True
-        if self.transport == "tcp":
+        self._join_writer()
+        if self.transport in ("tcp", "connect", "context"):
             self.peer.setsockopt(socket.SOL_SOCKET, socket.SO_LINGER, struct.pack("ii", 1, 0))
             self.peer.close()
             self.peer_state = "closed"
@@ -392,6 +549,8 @@ class Link:
         """Run a client call under the hang watchdog."""
         _WD["link"] = self
         _WD["fired"] = False
+        if self._writer is not None:
+            self._go.set()  # the client is entering a call: the held-back pieces may start to arrive
         signal.setitimer(signal.ITIMER_REAL, self.HANG_S)
         try:
             return fn(*args, **kw)
@@ -400,7 +559,13 @@ class Link:
             _WD["link"] = None
 
     def close(self):
+        self._join_writer()
         c = self.client
+        if self._ctx is not None:
+            try:
+                self._ctx.__exit__(None, None, None)  # the context's own exit path: Client.disconnect()
+            except Exception:  # noqa
+                pass
         c._connected = False  # so that __del__/disconnect never tries to talk
         for s in (self.a, self.peer):
             try:
